@@ -183,6 +183,66 @@ def trace_ob(obj):
     return fresh, steps
 
 
+def _choose_play(obj, hands, rng):
+    """(seat, card) for the next random play: mostly legal, sometimes out of turn / not held /
+    revoking."""
+    p = obj.active_player
+    hand = hands[p]
+    r = rng.random()
+    if r < 0.06:
+        p = rng.choice(list(Player))
+    if r > 0.94 or not hand:
+        return p, Card.int_to_card(rng.randrange(52))
+    led = obj._trick_cards[0] if obj._trick_cards else None
+    follow = [c for c in hand if led is not None and c.suit is led.suit]
+    cands = follow if (follow and rng.random() < 0.85) else list(hand)
+    return p, rng.choice(sorted(cands))
+
+
+def random_trace_wh(rng):
+    hands = Hands.generate_random_hands()
+    pp = PlayingPhaseWithHands(_mk_contract(rng), hands)
+    q = 'bridge_env.playing_phase.PlayingPhaseWithHands.play_card_by_player'
+
+    def step(obj, i):
+        if obj.trick_num > 13 or i > 70:
+            return None
+        p, c = _choose_play(obj, obj.hands, rng)
+        return q, dict(card=c, player=p)
+    return pp, step
+
+
+def random_trace_ob(rng):
+    import copy
+    hands = Hands.generate_random_hands()
+    me = rng.choice(list(Player))
+    pp = ObservedPlayingPhase(_mk_contract(rng), me, copy.copy(hands[me]))
+    q = 'bridge_env.playing_phase.ObservedPlayingPhase.play_card_by_player'
+    state = dict(told=False)
+
+    def step(obj, i):
+        if obj.trick_num > 13 or i > 80:
+            return None
+        played = 4 * (obj.trick_num - 1) + len(obj._trick_cards)
+        if played == 1 and not state['told'] and (me is not obj.dummy or rng.random() < 0.3):
+            state['told'] = True
+            return ('bridge_env.playing_phase.ObservedPlayingPhase.set_dummy_hand',
+                    dict(dummy_hand=copy.copy(hands[obj.dummy])))
+        p = obj.active_player
+        hand = hands[p]
+        if not hand:
+            return None
+        led = obj._trick_cards[0] if obj._trick_cards else None
+        follow = [c for c in hand if led is not None and c.suit is led.suit]
+        c = rng.choice(sorted(follow or hand))
+        if rng.random() < 0.05:           # an offer the observer must refuse or accept unchecked
+            c = Card.int_to_card(rng.randrange(52))
+            return q, dict(card=c, player=rng.choice(list(Player)))
+        hand.discard(c)
+        return q, dict(card=c, player=p)
+    return pp, step
+
+
 @klass('bridge_env.playing_phase.PlayingHistory', props=P45)
 class _PH:
     shape = PHShape
@@ -201,6 +261,7 @@ class _PPWH:
     inv = wh_inv
     sample = sample_wh
     trace = trace_wh
+    random_trace = random_trace_wh
 
 
 @klass('bridge_env.playing_phase.ObservedPlayingPhase', props=['C05', 'C06', 'C11'])
@@ -209,6 +270,7 @@ class _OPP:
     inv = ob_inv
     sample = sample_ob
     trace = trace_ob
+    random_trace = random_trace_ob
 
 
 transparent('bridge_env.hands.Hands.__getitem__', props=['C05', 'C06', 'C11', 'C14'])
